@@ -333,6 +333,15 @@ func (t *tcase) eval(r request, phase string) {
 	judge(c, t.m, r, a, want, phase)
 }
 
+func anyMatches(trs []triple, r request) bool {
+	for _, tr := range trs {
+		if tr.matches(r.Kind, r.Host, r.Target, r.User) {
+			return true
+		}
+	}
+	return false
+}
+
 func contains(l []string, s string) bool {
 	for _, x := range l {
 		if x == s {
@@ -351,6 +360,7 @@ func judge(c *h.Case, m *model, r request, a answer, want []string, phase string
 	case a.Err != "":
 		run.Inconclusive("transport anomaly (" + r.Kind + ")")
 		run.Count("transport_anomalies", 1)
+		debugf("case %d anomaly: %+v: %s", c.Idx, r, a.Err)
 	case a.Refused && want != nil:
 		c.Violation("matching-route-refused-"+r.Kind, "%s was refused (status %d) although route of %v matches; table %v", desc, a.Status, want, tab)
 	case a.Refused:
@@ -361,6 +371,8 @@ func judge(c *h.Case, m *model, r request, a answer, want []string, phase string
 		c.Violation("unmatched-request-reached-backend-"+r.Kind, "%s matches no route of the table %v but was answered by %s", desc, tab, a.Ident)
 	case !contains(want, a.Ident) && !m.isLive(a.Ident):
 		c.Violation(r.Kind+"-request-served-by-former-owner-after-reregistration", "%s must be served by %v but was answered by %s, whose proxy has been closed (acknowledged) before the request was sent; table %v", desc, want, a.Ident, tab)
+	case !anyMatches(m.tabs[r.Kind].triplesOf(a.Ident), r):
+		c.Violation("request-served-by-non-matching-route-"+r.Kind, "%s was answered by %s, none of whose routes %v matches the request (must be served by %v); table %v", desc, a.Ident, m.tabs[r.Kind].triplesOf(a.Ident), want, tab)
 	case !contains(want, a.Ident):
 		c.Violation("wrong-route-selected-"+r.Kind, "%s must be served by %v (most specific match) but was answered by %s; table %v", desc, want, a.Ident, tab)
 	default:
@@ -525,6 +537,11 @@ func (t *tcase) step(i int) bool {
 		}
 	}
 	x := rng.Intn(100)
+	if x < 70 && x >= 55 {
+		if done, ok := t.stepInFlight(i, live); done {
+			return ok
+		}
+	}
 	switch {
 	case x < 40 && len(live) > 0: // close one proxy
 		p := t.m.live[live[rng.Intn(len(live))]]
@@ -618,6 +635,84 @@ func (t *tcase) step(i int) bool {
 		probe(fmt.Sprintf("step %d: after dropping session %d", i, sidx), 4)
 	}
 	return true
+}
+
+// stepInFlight: a request is held in flight at the backend of an http route while that route is closed and
+// registered again by another session; the late answer may come from the old owner (the request preceded the
+// close), every request sent afterwards must reach the new owner although the old owner's connection goes
+// back into the server's pool after the re-registration.
+func (t *tcase) stepInFlight(i int, live []string) (done, ok bool) {
+	c, rng := t.c, t.rng
+	var cands []pspec
+	for _, n := range live {
+		p := t.m.live[n]
+		if p.Kind == kHTTP && p.Group == "" && t.peers[1+p.Sess%t.nSess] != nil && t.peers[p.Sess] != nil {
+			cands = append(cands, p)
+		}
+	}
+	if len(cands) == 0 {
+		return false, true
+	}
+	p := cands[rng.Intn(len(cands))]
+	trs := p.triples(subHost)
+	var slow request
+	found := false
+	for try := 0; try < 20 && !found; try++ {
+		tr := trs[rng.Intn(len(trs))]
+		slow = t.genRequestKind(kHTTP, &tr)
+		if slow.Form == "connect" {
+			continue
+		}
+		o := t.m.tabs[kHTTP].owners(kHTTP, slow.Host, slow.Target, slow.User)
+		found = len(o) == 1 && o[0] == p.ident()
+	}
+	if !found {
+		return false, true
+	}
+	slow.Conn = 100 + i
+	slow.Tag = newTag(c.Idx)
+	slow.DelayMs = 400
+	phase := fmt.Sprintf("step %d: close %s and re-register by another session with a request in flight", i, p.Name)
+	ch := make(chan answer, 1)
+	go func() { ch <- t.ua.do(slow) }()
+	if !h.Eventually(ioTimeout, func() bool { return len(t.lg.by(slow.Tag)) > 0 }) {
+		<-ch
+		run.Inconclusive("in-flight request did not reach its backend")
+		return true, true
+	}
+	peer := t.peers[p.Sess]
+	_ = peer.CloseProxy(p.Name)
+	if _, err := peer.Ping(ioTimeout); err != nil {
+		<-ch
+		run.Inconclusive("close barrier missing")
+		return true, false
+	}
+	t.m.close(p.Name)
+	c.Ev("close", "proxy", p.Name, "triples", trs, "in_flight", slow.Tag)
+	q := p
+	t.seq++
+	q.Name = fmt.Sprintf("%sh%d", t.pfx, t.seq)
+	q.Sess = 1 + p.Sess%t.nSess
+	regOK := t.register(q)
+	a := <-ch
+	c.Ev("request", "phase", phase, "req", slow, "got", a.String(), "tag", a.Tag, "in_flight", true)
+	run.Count("requests_in_flight_across_reregistration", 1)
+	switch {
+	case a.Ident == "" || a.Ident == p.ident():
+	case !t.m.isLive(a.Ident):
+		c.Violation("http-request-served-by-former-owner-after-reregistration", "%s: the request in flight was answered by %s, whose proxy had been closed (acknowledged) before the request was sent; owner at that time: %s", phase, a.Ident, p.ident())
+	default:
+		c.Violation("wrong-route-selected-http", "%s: the request in flight was answered by %s, not by the owner at the time it was sent and seen by a backend (%s)", phase, a.Ident, p.ident())
+	}
+	if !regOK || c.Violations() > 0 {
+		return true, false
+	}
+	t.ledgerCheck(phase)
+	for j := 0; j < 5; j++ {
+		tr := trs[rng.Intn(len(trs))]
+		t.eval(t.genRequestKind(kHTTP, &tr), phase)
+	}
+	return true, true
 }
 
 func (t *tcase) closePeers() {
